@@ -755,7 +755,7 @@ fn plan(m: &Model, thorough: bool) -> Plan {
     }
     // deviation plan: the largest pair alphabet whose row count fits the tier's cap
     let bases = base_vectors(m);
-    let row_cap: usize = if thorough { 150_000 } else { 40_000 };
+    let row_cap: usize = if thorough { 110_000 } else { 40_000 };
     let k = m.inputs.len();
     let pair_choices: Vec<(&'static str, Vec<u64>)> = if thorough {
         vec![("A24", a24()), ("A8", a8()), ("E3", e3()), ("E2={0,p-1}", vec![0, P - 1])]
@@ -799,7 +799,7 @@ fn const_sets(nc: usize, thorough: bool, n_inputs: usize) -> Vec<Vec<u64>> {
     if nc == 0 {
         return vec![vec![]];
     }
-    let budget: usize = if thorough { 150_000 } else { 70_000 };
+    let budget: usize = if thorough { 100_000 } else { 70_000 };
     let mut alphabets: Vec<Vec<u64>> = vec![vec![1, 0, P - 1, 1 << 32]];
     if thorough {
         alphabets.insert(0, a8());
